@@ -144,6 +144,13 @@ def run_dbg(ctx):
     return l1_both(ctx, miri_shards=MIRI_SHARDS.get(ctx.pid, 0))
 
 
+def run_c10(ctx):
+    import l2
+    res = run_dbg(ctx)
+    l2.c10_cli(ctx, res)
+    return res
+
+
 def run_c15(ctx):
     import l2
     res = run_dbg(ctx)
@@ -182,7 +189,7 @@ PROPS = {
         "assumptions": DBG_ASSUME,
     },
     "C10": {
-        "run": run_dbg,
+        "run": run_c10,
         "level": "exploration",
         "design_ref": "DESIGN.md section 4 C10",
         "level_text": "Lockstep runtime monitor against a reference debugger model: at every prompt the paused machine (registers, PC, CC, memory, instruction count, breakpoints, output) is compared with the model advanced by the same command prefix. Exhaustive over all scripts up to length 3 (quick) / 4 (thorough) of a 14-command alphabet on 12 fixed programs (loops, nested/recursive subroutines in both conventions, HALT in the middle, jumps out of user space, I/O, .break), plus random scripts on generated programs.",
